@@ -354,15 +354,20 @@ def specOp (tbl : GrainTable) (op : String) (args : List String) : Option String
   | "keccak.hash", slices => pure (showBytes (Keccak.keccak256 (← slices.mapM parseBytes?).flatten))
   | "mimc7.mimc7hashgeneric", [x, kk, n] => pure (toString (specMimc7 (imod (← parseInt? x) q) (imod (← parseInt? kk) q) (← parseNat? n)))
   | "mimc7.mimc7hash", [x, kk] => pure (toString (specMimc7 (imod (← parseInt? x) q) (imod (← parseInt? kk) q) 91))
+  -- the affine group law is the reference on CURVE points only (the domain of C04/C13/C03): off the curve the
+  -- library's projective formulas and the affine law legitimately differ, so there is no reference ("-")
   | "bj.add", [x1, y1, x2, y2] =>
-    pure (showNatPt (Ed.add (toNatPt ((← parseInt? x1), (← parseInt? y1))) (toNatPt ((← parseInt? x2), (← parseInt? y2)))))
+    let p1 := toNatPt ((← parseInt? x1), (← parseInt? y1)); let p2 := toNatPt ((← parseInt? x2), (← parseInt? y2))
+    if !(Ed.onCurve p1 && Ed.onCurve p2) then pure "-" else pure (showNatPt (Ed.add p1 p2))
   | "bj.mul", [s, x, y] =>
     let s ← parseInt? s
-    if s < 0 then pure "-" else pure (showNatPt (Ed.smul s.toNat (toNatPt ((← parseInt? x), (← parseInt? y)))))
+    let p := toNatPt ((← parseInt? x), (← parseInt? y))
+    if s < 0 || !Ed.onCurve p then pure "-" else pure (showNatPt (Ed.smul s.toNat p))
   | "bj.mulrecv", [s, x, y] =>
     let s ← parseInt? s
-    if s < 0 then pure "-" else
-      let r := Ed.smul s.toNat (toNatPt ((← parseInt? x), (← parseInt? y)))
+    let p := toNatPt ((← parseInt? x), (← parseInt? y))
+    if s < 0 || !Ed.onCurve p then pure "-" else
+      let r := Ed.smul s.toNat p
       pure s!"{showNatPt r} recv={showNatPt r}"
   | "bj.incurve", [x, y] => pure (showBool (Ed.onCurve (toNatPt ((← parseInt? x), (← parseInt? y)))))
   | "bj.insubgroup", [x, y] =>
@@ -372,7 +377,8 @@ def specOp (tbl : GrainTable) (op : String) (args : List String) : Option String
     -- the equation S•B8 = R8 + (8·H)•A with the affine law, S required in [0, l)
     let s ← parseInt? s
     let a := toNatPt ((← parseInt? ax), (← parseInt? ay)); let r := toNatPt ((← parseInt? rx), (← parseInt? ry))
-    if s < 0 ∨ s ≥ (l : Int) then pure "ERR:sOutOfRange"
+    if !(Ed.onCurve a && Ed.onCurve r) then pure "-"
+    else if s < 0 ∨ s ≥ (l : Int) then pure "ERR:sOutOfRange"
     else match (← hashBy h) [(← parseInt? rx), (← parseInt? ry), (← parseInt? ax), (← parseInt? ay), (← parseInt? msg)] with
       | none => pure "ERR:notInField"
       | some hm =>
